@@ -42,7 +42,7 @@ fn lib_block(c: &gm_sm4::Sm4Cipher, dec: bool, block: &[u8]) -> Result<Vec<u8>, 
     }
 }
 
-fn check_kb(c: &KB) -> CaseResult {
+pub fn check_kb(c: &KB) -> CaseResult {
     let key = arr16(&c.key);
     let blk = arr16(&c.block);
     let r = rsm4::Sm4::new(&key);
